@@ -570,3 +570,79 @@ func (c *Ctx) pathEdgeGuards(pred, succ *ssa.BasicBlock) []string {
 	}
 	return out
 }
+
+// pathEdgeAlts: every alternative under which the edge pred→succ is taken, each as its full list of rendered literals.
+func (c *Ctx) pathEdgeAlts(pred, succ *ssa.BasicBlock) [][]string {
+	pi := pathConds(pred.Parent())
+	var out [][]string
+	for _, a := range pi.in[pred] {
+		na, ok := pi.alongEdge(pi.brOf, pred, succ, a)
+		if !ok {
+			continue
+		}
+		var lits []string
+		for _, l := range na {
+			k := int(l >> 1)
+			if pi.isFlag[k] || pi.conds[k] == nil {
+				continue
+			}
+			pol := l&1 == 1
+			if pi.flip[k] {
+				pol = !pol
+			}
+			lits = append(lits, canonGuard(pol, c.Expr(pi.conds[k])))
+		}
+		sort.Strings(lits)
+		out = append(out, lits)
+	}
+	return out
+}
+
+// retAlt: one way a function returns: the value of result k and the full conditions of one alternative path.
+type retAlt struct {
+	Ret  *ssa.Return
+	V    ssa.Value
+	E    string
+	Lits []string
+}
+
+// returnAlts lists, for result k of fn, every (value, path alternative) pair. A result chosen by a phi at the return
+// contributes the alternatives of each incoming edge with that edge's value, so "assign then return once" and "return
+// in every branch" read alike.
+func (c *Ctx) returnAlts(fn *ssa.Function, k int) []retAlt {
+	var out []retAlt
+	eachInstr(fn, func(i ssa.Instruction) {
+		ret, ok := i.(*ssa.Return)
+		if !ok || k >= len(ret.Results) {
+			return
+		}
+		b := i.Block()
+		v := retValue(ret, k)
+		for {
+			switch x := v.(type) {
+			case *ssa.ChangeType:
+				v = x.X
+				continue
+			case *ssa.MakeInterface:
+				v = x.X
+				continue
+			}
+			break
+		}
+		if phi, isPhi := v.(*ssa.Phi); isPhi && phi.Block() == b {
+			for j, e := range phi.Edges {
+				if j >= len(b.Preds) {
+					continue
+				}
+				for _, lits := range c.pathEdgeAlts(b.Preds[j], b) {
+					out = append(out, retAlt{ret, e, c.Expr(e), lits})
+				}
+			}
+			return
+		}
+		for _, lits := range c.pathAlts(b) {
+			out = append(out, retAlt{ret, v, c.Expr(v), lits})
+		}
+	})
+	return out
+}
